@@ -899,6 +899,9 @@ func (p *context) compileInstrOrValue(b llssa.Builder, iv instrOrValue, asValue 
 		ret = b.Convert(p.type_(t, llssa.InGo), x)
 	case *ssa.FieldAddr:
 		x := p.compileValue(b, v.X)
+		if p.farFromNilBase(v.X, func(t llssa.Type) uint64 { return p.prog.OffsetOf(t, v.Field) }) {
+			b.AssertNilDeref(x)
+		}
 		ret = b.FieldAddr(x, v.Field)
 	case *ssa.Alloc:
 		t := v.Type().(*types.Pointer)
@@ -914,6 +917,9 @@ func (p *context) compileInstrOrValue(b llssa.Builder, iv instrOrValue, asValue 
 		}
 		x := p.compileValue(b, vx)
 		idx := p.compileValue(b, v.Index)
+		if p.farFromNilBase(vx, func(t llssa.Type) uint64 { return p.prog.SizeOf(t) }) {
+			b.AssertNilDeref(x)
+		}
 		ret = b.IndexAddr(x, idx)
 	case *ssa.Index:
 		x := p.compileValue(b, v.X)
@@ -1057,6 +1063,31 @@ func (p *context) compileInstrOrValue(b llssa.Builder, iv instrOrValue, asValue 
 	}
 	p.bvals[iv] = ret
 	return ret
+}
+
+// minNilFaultOffset is the size of the region at address 0 that is never
+// mapped. A nil dereference at a smaller offset is caught by the SIGSEGV
+// handler; a larger one need not fault (on linux the executable image sits at
+// 4 MiB) and takes an explicit nil check.
+const minNilFaultOffset = 4096
+
+// farFromNilBase reports whether an element address derived from base (a
+// pointer to a struct or array that may be nil) can lie at or beyond
+// minNilFaultOffset. extent yields the field offset or the array size.
+func (p *context) farFromNilBase(base ssa.Value, extent func(t llssa.Type) uint64) bool {
+	switch base.(type) {
+	case *ssa.Alloc, *ssa.Global:
+		return false // the address of a variable is never nil
+	}
+	pt, ok := types.Unalias(base.Type()).Underlying().(*types.Pointer)
+	if !ok {
+		return false
+	}
+	t := p.type_(pt.Elem(), llssa.InGo)
+	if t.RawType() == nil {
+		return false
+	}
+	return extent(t) >= minNilFaultOffset
 }
 
 func (p *context) assertNilDerefBase(b llssa.Builder, addr ssa.Value) {
